@@ -83,6 +83,19 @@ CLAIMED["C08"] = dict(
     note=("Reference lints come from the same harper-core; independent are the position arithmetic, the span->range->edit path and the range->span lookup. "
           "Positions inside surrogate pairs are not probed."),
     technique=TECH + "; lsp-sim sequential sessions: editor model with independent UTF-16 arithmetic probes every position of every diagnostic")
+CLAIMED["C05"] = dict(
+    engine="cache-sim",
+    category="exploration",
+    text=("Long-lived linters of the three kinds that exist in deployments (bare LintGroup; LintGroup driven like harper-ls's DocumentState; harper_wasm::Linter "
+          "serving plain text and Markdown) live on a pool of real OS threads of which a baton releases exactly one at a time; the scheduler PRNG chooses the thread "
+          "of every operation, linters migrate between threads, threads are spawned and retired, rules are toggled and toggled back, words are imported. Documents are "
+          "assembled so that caches are hit in a different context than they were filled in (other offset, other language whose tokens differ for the same characters, "
+          "other configuration, after >10 000 distinct clauses). After every lint the complete result including order must equal that of a fresh linter on a fresh thread; "
+          "every history runs in three hash universes (foldhash seeds, getrandom stream, clock epoch) inside separate forked processes and per-operation digests must agree."),
+    design_ref="DESIGN.md §3 C05",
+    note=("One thread runs at a time: true parallel execution of two lints is not explored (Harper shares no mutable state across threads other than lazily initialised statics and "
+          "thread-locals). A defect that also occurs in a fresh linter is invisible here by construction."),
+    technique=TECH + "; cache-sim: baton-scheduled real threads, seeded hash universes, long-lived vs fresh linter")
 CLAIMED["C14"] = dict(
     engine="api-sim",
     category="exploration",
@@ -126,7 +139,6 @@ NA = {
 
 # properties whose check is designed (DESIGN.md) but not registered yet
 PENDING = {
-  "C05": "designed (DESIGN.md §3 C05, engine cache-sim) but the check is not built yet; not claimed until it is",
 }
 
 def main():
